@@ -9,6 +9,7 @@ mod nodevec;
 mod pathreq;
 mod privgen;
 mod ratchet;
+mod reinitrule;
 mod resume;
 mod transcript;
 mod treemath;
@@ -37,6 +38,7 @@ fn main() {
         "latesender" => latesender::run(&a[2], &a[3]),
         "welcome" => welcome::run(&a[2], &a[3]),
         "keysched" => keysched::run(&a[2], &a[3]),
+        "reinitrule" => reinitrule::run(&a[2], &a[3]),
         _ => std::process::exit(2),
     }
 }
